@@ -16,6 +16,7 @@ from ..cfg import cfg_of
 from ..report import Violation, AnalysisBroken
 from .. import ir as IR
 
+from .C01 import bits as C01bits
 UNLOCK_FAMILY = ('nsync_mu_unlock', 'nsync_mu_runlock', 'nsync_mu_unlock_without_wakeup', 'nsync_mu_unlock_slow_')
 
 def mucv_root(mod, fn, cond_ref, K):
@@ -246,25 +247,93 @@ def run(ctx, rep):
                     site='%s/waiting-without-waiter' % s7.fn.name))
     # ... and the other direction: a thread that drops the spinlock knowing the queue to be empty leaves MU_WAITING clear
     for r in eng.records:
-        # (not while the thread still holds the lock: the scanning unlocker parks the queue in a local list and drops the spinlock, holding the
-        # write lock, before it restores the queue)
-        if r.kind == 'trans' and r.wc.name == 'mu' and r.pairs and r.spin == 1 and r.new_spin == 0 and r.queue == 0 and r.new_hold not in ('W', 'R'):
+        if r.kind == 'trans' and r.wc.name == 'mu' and r.pairs and r.spin == 1 and r.new_spin == 0 and r.queue == 0:
             s7 = r.site(eng.wrappers)
-            bad = next((n for e, n in r.pairs if n & WT), None)
+            if r.new_hold in ('W', 'R'):
+                # The thread still holds the lock.  The scanning unlocker parks the queue in a local list (it stored NULL over the head
+                # itself) and restores it before it releases: not an empty queue.  Otherwise the holder leaves with the bit set on an empty
+                # queue; its own next release is then safe only if it keeps the lock through the slow path, which it does exactly when
+                # MU_CONDITION is set as well (the state a timed-out conditional waiter leaves behind).
+                if getattr(r, 'parked', False):
+                    continue
+                bad = next((n for e, n in r.pairs if (n & WT) and not (n & K['MU_CONDITION'])), None)
+                what = 'MU_WAITING set without MU_CONDITION'
+            else:
+                bad = next((n for e, n in r.pairs if n & WT), None)
+                what = 'MU_WAITING still set'
             key = (s7.fn.name, s7.id, 'empty', bad is None, r.entry)
             if key in seen7:
                 continue
             seen7.add(key)
-            rep.instance('C13.R7', 'spinlock released at %s with the queue known empty: MU_WAITING left clear=%s [%s]' % (s7.where(), bad is None, r.entry))
+            rep.instance('C13.R7', 'spinlock released at %s with the queue known empty (lock %s): MU_WAITING left clear%s=%s [%s]' % (s7.where(), r.new_hold, ' or covered by MU_CONDITION' if r.new_hold in ('W', 'R') else '', bad is None, r.entry))
             rep.oblig('C13.R7', bad is None)
             if bad is not None:
                 rep.violate(Violation('C13.R7', s7.where(),
-                    'the spinlock is released with the waiter queue known to be empty but MU_WAITING still set: every later release takes the slow path, gives up the lock while it is still using the mutex and - with no queued waiter as a user - another thread can acquire, find itself the last user and free the mutex under it [entry %s, via %s]' % (r.entry, r.ctx()),
+                    'the spinlock is released with the waiter queue known to be empty but %s (%s): a later release takes the slow path, gives up the lock in its first CAS while it is still using the mutex and - with no queued waiter as a user - another thread can acquire, find itself the last user and free the mutex under it [entry %s, via %s]' % (what, C01bits(K, bad), r.entry, r.ctx()),
                     site='%s/waiting-kept-on-empty-queue' % s7.fn.name))
     rep.floor('C13.R7', 3)
     check_dequeuers(ctx, mod, eng, runs, rep)
-    rep.assumptions += ['pooled waiter structs (nsync_waiter_new_) are never freed, so touching them after the release is safe',
+    rep.rule('C13.R8', 'pooled waiter records are never handed back to the allocator (wakers post their semaphores with no lock held)')
+    check_pooled_never_freed(mod, rep, 'C13.R8')
+    rep.assumptions += [
                         'a thread queued on the mutex is itself a user of it: the mutex cannot be reclaimed while the queue is non-empty']
     return rep.finish(
         explanation='R1: typestate interpretation of the unlock family - after the final release no pointer derived from mu is used. R3: dominance rule on cv wakers - only MUCV-proven records are woken after the spinlock is dropped. Waker/dequeuer exclusion for notes and counters is decided by the lockset rules in C08/C10.',
         trusted_base=['clang 14 IR', 'nsa/symex.py', 'dominators (nsa/cfg.py)'])
+
+
+DEALLOCATORS = ('free', 'cfree', 'realloc', 'reallocarray', 'munmap')
+
+def check_pooled_never_freed(mod, rep, rid):
+    """The title clause for mutex and cv wakers rests on "a woken thread's record outlives the wake-up": the waker clears waiting and posts the
+    semaphore of a pooled record after it has dropped every lock, and the woken thread may have left its wait (timeout) and even exited by
+    then.  That is safe only because records handed out by nsync_waiter_new_ go back to the free list and never to the allocator.  Rule: no
+    call of a deallocator in the library receives a pointer whose static type (through casts, phis and selects) is the pooled record type -
+    the return type of nsync_waiter_new_ - or a pointer into one."""
+    wn = mod.func('nsync_waiter_new_')
+    if wn is None or wn.decl or not str(wn.ret).endswith('*'):
+        raise AnalysisBroken('%s: nsync_waiter_new_ (the pool) not found' % rid)
+    pooled = wn.ret
+    inner = set()
+    def src_types(fn, ref, seen):
+        """static pointer types the value had before it was cast to void*"""
+        out = set()
+        if not isinstance(ref, str) or (fn.name, ref) in seen:
+            return out
+        seen.add((fn.name, ref))
+        if ref.startswith('a') and ref[1:].isdigit():
+            k = int(ref[1:])
+            if k < len(fn.args):
+                out.add(fn.args[k]['ty'])
+            return out
+        i = fn.imap.get(ref)
+        if i is None:
+            return out
+        out.add(i.ty)
+        if i.op == 'bitcast':
+            out.add(i.x.get('sty'))
+            out |= src_types(fn, i.ops[0], seen)
+        elif i.op == 'phi':
+            for v, pb in i.ops:
+                out |= src_types(fn, v, seen)
+        elif i.op == 'select':
+            for v in i.ops[1:]:
+                out |= src_types(fn, v, seen)
+        elif i.op == 'getelementptr':
+            # a pointer into a record (free (&w->nw) and the like)
+            out |= set('into:' + t for t in src_types(fn, i.ops[0], seen))
+        return out
+    n = 0
+    for g in mod.defined.values():
+        for c in g.real_insts():
+            if c.op == 'call' and c.callee in DEALLOCATORS and c.ops:
+                n += 1
+                tys = src_types(g, c.ops[0], set())
+                bad = pooled in tys or ('into:' + pooled) in tys
+                rep.instance(rid, '%s at %s receives %s' % (c.callee, c.where(), ', '.join(sorted(t for t in tys if t and t != 'i8*')) or 'void*')); rep.oblig(rid, not bad)
+                if bad:
+                    rep.violate(Violation(rid, c.where(),
+                        '%s hands a pooled waiter record (%s) back to the allocator: a waker that has already dropped its locks still writes the record\'s waiting flag and posts its semaphore - after a timed-out waiter has returned, exited and had the record freed, that is a write to freed memory' % (g.name, pooled),
+                        site='%s/waiter-freed' % g.name))
+    if n == 0:
+        raise AnalysisBroken('%s: no deallocator call found in the library (note/counter free and nsync_wait_n have one each)' % rid)
